@@ -5,7 +5,10 @@
    the bytes.
    Reading aid:  [InvC s bs]  = "the node s is well formed and holds exactly the bytes bs"
    (StrProofs.v);  [reach al s0 s] = "s is reached from s0 by some history of well-formed
-   set operations under the allocator behaviour al";  every result type has an explicit
+   set operations under the allocator behaviour al";  a set operation takes its bytes either
+   from memory outside the node (OpSetLen, OpSet) or from the node's own current buffer,
+   json_object_get_string(o) + off (OpSetOwnLen, OpSetOwn: in-place truncation, substring);
+   [op_wf c o] is the caller contract relative to the contents c at the call;  every result type has an explicit
    undefined-behaviour constructor (SUB / NUB / DUB), so "never undefined" is part of each
    statement. *)
 From JC Require Import Base StrModel StrProofs.
@@ -46,14 +49,14 @@ Print Assumptions C11_view.
    exactly the requested bytes, all writes inside live blocks of sufficient size, the inline
    capacity unchanged; or it returns 0, for a stated reason, and nothing changed; never UB *)
 Theorem C11_step : forall al s bs0 o,
-  InvC s bs0 -> op_wf o -> step_post al s o (str_step al s o).
+  InvC s bs0 -> op_wf bs0 o -> step_post al s bs0 o (str_step al s o).
 Proof. exact step_spec. Qed.
 Print Assumptions C11_step.
 
 (* for all histories of set_string(_len), shorter, equal or longer, zero length included:
    bytes = those of the last successful set, length = their count, NUL follows in the buffer *)
 Theorem C11_get_after_sets : forall al ops s bs0,
-  InvC s bs0 -> zlen bs0 <= INT_MAX -> Forall op_wf ops ->
+  InvC s bs0 -> zlen bs0 <= INT_MAX -> hist_ok al s ops ->
   exists s' rets, str_run al s ops = Some (s', rets) /\
     let bs := spec_run bs0 ops rets in
     get_string s' = Some (map Some bs) /\ get_string_len s' = zlen bs /\
@@ -61,20 +64,37 @@ Theorem C11_get_after_sets : forall al ops s bs0,
 Proof. exact get_after_sets. Qed.
 Print Assumptions C11_get_after_sets.
 
+(* histories whose sources all lie outside the node need no state-dependent contract *)
+Theorem C11_ext_hist_ok : forall al ops s, Inv s -> Forall ext_wf ops -> hist_ok al s ops.
+Proof. exact ext_hist_ok. Qed.
+Print Assumptions C11_ext_hist_ok.
+
+(* truncation in place, json_object_set_string_len(o, json_object_get_string(o), n), n <= the
+   current length, in inline or separate storage, zero included: succeeds under every
+   allocator behaviour without an allocation request, keeps exactly the first n bytes, never
+   reads released storage (the copy precedes any release, and the zero-length branch, which
+   releases first, copies nothing) *)
+Theorem C11_truncate_in_place : forall al s bs0 n,
+  InvC s bs0 -> 0 <= n <= zlen bs0 -> n < INT_MAX - 1 ->
+  exists s' ws, str_step al s (OpSetOwnLen 0 n) = SOk s' 1 ws /\ InvC s' (zfirstn n bs0) /\
+                reqs s' = reqs s /\ Forall (wr_ok (hp s')) ws.
+Proof. exact truncate_in_place. Qed.
+Print Assumptions C11_truncate_in_place.
+
 (* a failed set (allocation failure or refused length) leaves contents, length, storage and
    the malloc/free log unchanged *)
 Theorem C11_failed_set_keeps : forall al s bs0 o s' ws,
-  InvC s bs0 -> op_wf o -> str_step al s o = SOk s' 0 ws ->
+  InvC s bs0 -> op_wf bs0 o -> str_step al s o = SOk s' 0 ws ->
   ws = [] /\ same_store s s' /\ InvC s' bs0 /\
   get_string s' = get_string s /\ slen_abs s' = slen_abs s /\ is_sep s' = is_sep s /\
-  (op_len o < 0 \/ INT_MAX - 1 <= op_len o \/
-   (al (reqs s) (op_len o + 1) = false /\ slen_abs s < op_len o)).
+  (op_len bs0 o < 0 \/ INT_MAX - 1 <= op_len bs0 o \/
+   (al (reqs s) (op_len bs0 o + 1) = false /\ slen_abs s < op_len bs0 o)).
 Proof. exact failed_set_keeps. Qed.
 Print Assumptions C11_failed_set_keeps.
 
 (* failures are never spurious *)
 Theorem C11_good_set_succeeds : forall s bs0 o,
-  InvC s bs0 -> op_wf o -> 0 <= op_len o < INT_MAX - 1 ->
+  InvC s bs0 -> op_wf bs0 o -> 0 <= op_len bs0 o < INT_MAX - 1 ->
   exists s' ws, str_step (fun _ _ => true) s o = SOk s' 1 ws.
 Proof. exact good_set_succeeds. Qed.
 Print Assumptions C11_good_set_succeeds.
@@ -84,7 +104,7 @@ Print Assumptions C11_good_set_succeeds.
    to, the heap agrees with the log; the next set never reaches UB (no access to a freed,
    indeterminate or too small buffer) and each of its writes fits a live block *)
 Theorem C11_no_leak_no_uaf : forall al s0 s o,
-  Inv s0 -> reach al s0 s -> op_wf o ->
+  Inv s0 -> reach al s0 s -> op_wf (contents s) o ->
   Safe s /\
   match str_step al s o with
   | SOk s' r ws => Forall (wr_ok (hp s')) ws /\ Safe s' /\ (r = 0 \/ r = 1)
@@ -120,23 +140,28 @@ Theorem C11_len_int_guard : forall s, slen s = 2147483648 -> get_string_len s = 
 Proof. exact get_len_wraps. Qed.
 Print Assumptions C11_len_int_guard.
 
-(* non-vacuity: a concrete history through inline -> shorter inline -> separate -> reuse ->
-   allocation failure -> regrow -> zero length (inline) -> refused -> separate, then delete *)
+(* non-vacuity: a concrete history through inline -> shorter inline -> strlen of the own buffer
+   -> separate -> truncation in place -> substring of the own buffer -> allocation failure ->
+   regrow -> in-place truncation to zero (inline) -> refused -> separate, then delete *)
 Theorem C11_nonvacuous :
-  Forall op_wf ex_ops /\
   match new_string_len (fun _ _ => true) [104; 101; 108; 108; 111] 5 with
   | NOk s0 =>
+      hist_ok ex_al s0 ex_ops /\
       match str_run ex_al s0 ex_ops with
       | Some (s, rets) =>
-          rets = [1; 1; 1; 0; 1; 1; 0; 1] /\
+          rets = [1; 1; 1; 1; 1; 0; 1; 1; 0; 1] /\
           get_string s = Some [Some 0; Some 200] /\ get_string_len s = 2 /\ get_nul s = Some (Some 0) /\
           is_sep s = true /\ live_of_log (elog s) = [3; 0] /\
           str_ser false s = Some [34; 92; 117; 48; 48; 48; 48; 200; 34] /\
           match str_delete s with
-          | DOk s' => elog s' = [EvFree 0; EvFree 3; EvMalloc 3 3; EvFree 2; EvFree 1; EvMalloc 2 4;
+          | DOk s' => elog s' = [EvFree 0; EvFree 3; EvMalloc 3 3; EvFree 2; EvFree 1; EvMalloc 2 5;
                                  EvMalloc 1 13; EvMalloc 0 57]
           | DUB => False
           end
+      | None => False
+      end /\
+      match str_run ex_al s0 (firstn 5 ex_ops) with
+      | Some (s, _) => get_string s = Some [Some 103; Some 104; Some 105]
       | None => False
       end
   | _ => False
@@ -159,7 +184,7 @@ Print Assumptions C11_equal_uses_bytes_after_nul.
 Theorem C11_model_detects_uaf_and_double_free :
   match new_string_len (fun _ _ => true) [1; 2; 3] 3 with
   | NOk s0 =>
-      match set_string_len (fun _ _ => true) s0 [1; 2; 3; 4; 5] 5 with
+      match set_string_len (fun _ _ => true) s0 (PExt [1; 2; 3; 4; 5]) 5 with
       | SOk s1 _ _ =>
           match pptr s1 with
           | Some p =>
@@ -167,7 +192,7 @@ Theorem C11_model_detects_uaf_and_double_free :
               | Some h' =>
                   let bad := mkst (slen s1) (ilen0 s1) (pptr s1) h' (reqs s1) (EvFree p :: elog s1) in
                   get_string bad = None /\ str_delete bad = DUB /\
-                  set_string_len (fun _ _ => true) bad [9] 1 = SUB /\
+                  set_string_len (fun _ _ => true) bad (PExt [9]) 1 = SUB /\
                   log_ok (EvFree p :: EvFree p :: elog s1) = false
               | None => False
               end
@@ -179,3 +204,32 @@ Theorem C11_model_detects_uaf_and_double_free :
   end.
 Proof. exact model_detects_uaf_and_double_free. Qed.
 Print Assumptions C11_model_detects_uaf_and_double_free.
+
+(* "copy, then release": with the release first, a source inside the node's own buffer is read
+   after its release (UB in the model); a partially overlapping source is UB as for memcpy *)
+Theorem C11_copy_before_free_matters :
+  match new_string_len (fun _ _ => true) [1; 2; 3] 3 with
+  | NOk s0 =>
+      match set_string_len (fun _ _ => true) s0 (PExt [65; 66; 67; 68; 69; 70; 71; 72; 73; 74]) 10 with
+      | SOk s1 _ _ =>
+          match pptr s1 with
+          | Some p =>
+              (match str_step (fun _ _ => true) s1 (OpSetOwnLen 0 5) with
+               | SOk s2 r _ => r = 1 /\ get_string s2 = Some (map Some [65; 66; 67; 68; 69]) /\ is_sep s2 = true
+               | SUB => False
+               end) /\
+              (match hfree (hp s1) p with
+               | Some h' =>
+                   set_finish (mkst 0 (ilen0 s1) (pptr s1) h' (reqs s1) (EvFree p :: elog s1))
+                              0 (PHeap p 0) 5 5 = SUB
+               | None => False
+               end) /\
+              str_step (fun _ _ => true) s1 (OpSetOwnLen 1 5) = SUB
+          | None => False
+          end
+      | SUB => False
+      end
+  | _ => False
+  end.
+Proof. exact copy_before_free_matters. Qed.
+Print Assumptions C11_copy_before_free_matters.
